@@ -113,7 +113,7 @@ def generate(tier):
         out.append("#[kani::proof]\n%spub(super) fn %s() {\n%s}\n" % (solver, h, b))
         obs.append(dict(engine="kani", crate="gluon_vm", module=THREAD, modname="verif_kani_gen", harness=h, name="C01/arith/%s" % ins, complete=True,
                         clause="interpreter arm `%s => %s(.., %s)` computes %s %s on %s exactly; None exactly on overflow / division by zero" % (ins, helper, expr, "l", op, kind),
-                        functions=["%s::execute_ arm %s -> %s" % (THREAD, ins, expr)], timeout=600, solver="cvc5" if solver else "cadical"))
+                        functions=["%s::execute_ arm %s -> %s" % (THREAD, ins, expr)], timeout=1500, solver="cvc5" if solver else "cadical"))
     write_if_changed(GEN_T, "\n".join(out))
     # operator-name table
     arms_text = parse_prim_table()
@@ -126,7 +126,7 @@ def generate(tier):
     o2.append("    assert!(prim_table(\"+\").is_none());\n    assert!(prim_table(\"#Int%\").is_none());\n}\n")
     write_if_changed(GEN_C, "\n".join(o2))
     obs.append(dict(engine="kani", crate="gluon_vm", module=COMPILER, modname="verif_kani_gen", harness="c01__optable__names_map_to_their_opcodes", name="C01/optable/names_map_to_their_opcodes",
-                    complete=True, clause="every documented built-in operator spelling compiles to its own opcode (finite table, concrete enumeration)", functions=[COMPILER + "::compile_primitive operator table"], timeout=600))
+                    complete=True, clause="every documented built-in operator spelling compiles to its own opcode (finite table, concrete enumeration)", functions=[COMPILER + "::compile_primitive operator table"], timeout=1500))
     generate.cache = obs
     return obs
 
